@@ -17,9 +17,14 @@
    ./check C18 runs commits with external and resumption PSKs against members whose stores
    hold the right value, another value or nothing, whose retention does or does not reach the
    referenced epoch, and compares acceptance with the resolution model evaluated in Coq.
+   The resolver and the repository lookup behind it are also TRANSLATED from psk/resolver.rs and
+   group/state_repo.rs on every run (Gen/ResumeGen.v) and proved equal to the resolution model:
+   the resolver for every holder, the repository lookup for every repository that keeps its
+   books (repo_wf: consecutive inserts, every written epoch of the own group older than the
+   first insert - checked on every storage write ./check C18 observes).
    Statements only. *)
 From Coq Require Import NArith List Bool.
-From MlsV Require Import KeyScheduleRFC Hkdf PskIdeal PskProofs.
+From MlsV Require Import KeyScheduleRFC Hkdf PskIdeal PskProofs ResumeGen ResumeGenProofs.
 Import ListNotations.
 Local Open Scope N_scope.
 
@@ -60,8 +65,29 @@ Theorem C18_foreign_resumption_psk_from_storage_only : forall h gid epoch,
     match find (fun x => (fst (fst x) =? gid) && (snd (fst x) =? epoch)) (h_stored h) with Some x => Some (snd x) | None => None end.
 Proof. exact foreign_resumption_from_storage_only. Qed.
 
+Theorem C18_translated_resolver_is_the_model : forall h p l,
+  gen_resolve_one h (model_repo h) p = resolve h p /\ gen_resolve_all h (model_repo h) l = resolve_all h l.
+Proof. exact translated_resolver. Qed.
+
+Theorem C18_translated_repository_lookup_is_the_model : forall r cur_epoch cur ext gid epoch,
+  repo_wf r = true ->
+  gen_repo_resumption r gid epoch = model_repo (holder_of r cur_epoch cur ext) gid epoch.
+Proof. exact gen_repo_resumption_is_model. Qed.
+
+Theorem C18_translated_resolver_over_translated_repository : forall r cur_epoch cur ext p,
+  repo_wf r = true ->
+  gen_resolve_one (holder_of r cur_epoch cur ext) (gen_repo_resumption r) p = resolve (holder_of r cur_epoch cur ext) p.
+Proof. exact gen_resolver_over_gen_repository. Qed.
+
+Example C18_repository_bookkeeping_is_satisfiable :
+  repo_wf {| r_gid := 1; r_inserts := [(5, 50); (6, 60)]; r_updates := [(3, 30)]; r_stored := [(1, 2, 20); (1, 3, 31); (2, 9, 90)] |} = true.
+Proof. exact repo_wf_nontrivial. Qed.
+
 Print Assumptions C18_psk_secret_determines_the_list.
 Print Assumptions C18_epoch_secret_binds_the_psks.
 Print Assumptions C18_rfc_chain_is_the_ideal_chain_over_hkdf.
 Print Assumptions C18_lacking_one_psk_resolves_nothing.
 Print Assumptions C18_foreign_resumption_psk_from_storage_only.
+Print Assumptions C18_translated_resolver_is_the_model.
+Print Assumptions C18_translated_repository_lookup_is_the_model.
+Print Assumptions C18_translated_resolver_over_translated_repository.
